@@ -38,14 +38,14 @@ THEOREMS = [
     "SleapVerif.C15.oks_entry",
     "SleapVerif.C15.oks_none_iff",
     "SleapVerif.C15.oks_range_novisible_counterexample",
-    "SleapVerif.C15.oks_total_partial",
-    "SleapVerif.C15.oks_total_asIs_counterexample",
+    "SleapVerif.C15.oks_beforeFix_partial",
+    "SleapVerif.C15.oks_beforeFix_counterexample",
     "SleapVerif.C15.match_conservation",
     "SleapVerif.C15.match_gt_at_most_once",
     "SleapVerif.C15.match_pred_at_most_once",
     "SleapVerif.C15.match_pairs_sound",
-    "SleapVerif.C15.match_total_partial",
-    "SleapVerif.C15.match_total_asIs_counterexample",
+    "SleapVerif.C15.match_beforeFix_partial",
+    "SleapVerif.C15.match_beforeFix_counterexample",
     "SleapVerif.C15.greedy_rows_nodup",
     "SleapVerif.C15.greedy_cols_nodup",
     "SleapVerif.C15.greedy_sublist",
@@ -65,12 +65,20 @@ THEOREMS = [
     "SleapVerif.C15.ksArg_nonpos_and_translation",
     "SleapVerif.C15.oks_pure",
     "SleapVerif.C15.match_nan_row_is_false_negative",
+    "SleapVerif.C15.area_nonneg",
+    "SleapVerif.C15.oksPair_range",
+    "SleapVerif.C15.oksMatrix_range",
+    "SleapVerif.C15.oksPair_self",
+    "SleapVerif.C15.oks_ignores_missing_gt_coords_partial",
+    "SleapVerif.C15.oks_missing_gt_coord_counterexample",
+    "SleapVerif.C15.oksPairMixed_eq",
 ]
 
 EPS = Fraction(2) ** -52  # np.spacing(1)
 TOL = 1e-9
 SIG_EMPTY_GT = "empty_gt_nonempty_pred"
 SIG_NPR = "compute_oks_n_pr_not_one"
+SIG_HALFNAN = "half_nan_gt_keypoint_enters_bbox_scale"
 
 
 # ----------------------------------------------------------------------------- helpers
@@ -168,8 +176,26 @@ def parse_oks(out):
 
 
 # ----------------------------------------------------------------------------- main
-def main(chk: Check):
-    chk.build_and_audit()
+REPLAY: dict = {}
+
+
+def replay(chk: Check, payload):
+    """`bin/check C15 --replay <file>`: re-execute the recorded case through the same pipeline
+    (correspondence + history + property oracles) instead of the generator."""
+    case = payload.get("case") or (payload.get("disagreements") or [{}])[0].get("case") or {}
+    if "use_cocoeval" in case:
+        REPLAY["oks"] = case
+    elif "scores" in case and "threshold" in case:
+        REPLAY["match"] = case
+    else:
+        print("NOTE: this replay file records a case kind that is re-run through the whole generator", case.keys())
+        return
+    main(chk, build=False)
+
+
+def main(chk: Check, build=True):
+    if build:
+        chk.build_and_audit()
     import_repo()
     import numpy as np
     import sleap_io as sio
@@ -207,6 +233,15 @@ def main(chk: Check):
         r = call(ev.compute_oks, np.array(w["points_gt"], float), np.array(w["points_pr"], float))
         chk.known_replay("F-C15b", still_fails=(r[0] == "raise"), detail=str(r)[:200])
 
+    ent = next((f for f in chk.known if f["id"] == "F-C15c"), None)
+    if ent is not None:
+        w = ent["witness"]
+        arr = lambda x: np.array([[np.nan if v is None else v for v in q] for q in x], dtype=float)
+        a = call(ev.compute_oks, arr(w["gt_a"]), arr(w["pr"]))
+        b = call(ev.compute_oks, arr(w["gt_b"]), arr(w["pr"]))
+        chk.known_replay("F-C15c", still_fails=(a[0] == "ok" and b[0] == "ok" and not np.allclose(a[1], b[1], atol=1e-9)),
+                         detail=f"{a} {b}"[:200])
+
     # ================================================================== 1. compute_oks
     state = {"broadcast_raises": 0}
 
@@ -235,21 +270,30 @@ def main(chk: Check):
         Pm = np.array(prs, dtype=np.float64).reshape(len(prs), n_nodes, 2)
         return compute_oks_any(G, Pm, scale=scale, stddev=stddev, use_cocoeval=coco)
 
-    def oks_property_oracle(gts, prs, scale, stddev, coco, n_nodes, case, dtype=np.float64, offset=(0.0, 0.0)):
+    def squeeze2d(fn):
+        """call `compute_oks` the way the tracker does (tracker.py: `scoring_method(f, x.feature)`):
+        a single instance is passed as a 2-D `(n_nodes, 2)` array"""
+        def g(G, Pm, **kw):
+            return fn(G[0] if G.shape[0] == 1 else G, Pm[0] if Pm.shape[0] == 1 else Pm, **kw)
+        return g
+
+    def oks_property_oracle(gts, prs, scale, stddev, coco, n_nodes, case, dtype=np.float64, offset=(0.0, 0.0),
+                            shape2d=False):
         """independent restatement of the OKS clauses on the implementation's output.  `dtype`/`offset`:
         the same poses stored as float32/float64 and translated by a large common offset; offsets are
         integers small enough that every translated k/16-lattice coordinate is exactly representable in
         `dtype`, so translating is an exact operation on the inputs and the displacement the code forms
         first is exact too: results must agree to rounding of the later float64 steps (1e-9), for
         float32 inputs to the float32 rounding of d2 and of the bbox area (|Δexp(-x)| <= x e^-x 2^-22 < 1e-6)."""
-        ttol = 1e-9 if dtype == np.float64 else 1e-6
+        ttol = 1e-9 if dtype == np.float64 else 5e-7
         off = np.array(offset, dtype=np.float64)
         G0 = np.array(gts, dtype=np.float64).reshape(len(gts), n_nodes, 2)
         P0 = np.array(prs, dtype=np.float64).reshape(len(prs), n_nodes, 2)
         G = (G0 + off).astype(dtype)
         Pm = (P0 + off).astype(dtype)
-        case = dict(case, dtype=np.dtype(dtype).name, offset=list(offset))
-        f = lambda g, p, sc=scale: compute_oks_any(g, p, scale=sc, stddev=stddev, use_cocoeval=coco)
+        case = dict(case, dtype=np.dtype(dtype).name, offset=list(offset), call_shape="2-D" if shape2d else "3-D")
+        core = squeeze2d(compute_oks_any) if shape2d else compute_oks_any
+        f = lambda g, p, sc=scale: core(g, p, scale=sc, stddev=stddev, use_cocoeval=coco)
         base = f(G, Pm)
         visg = ~np.isnan(G).any(-1)
         ok_rows = visg.sum(-1) >= 1
@@ -316,6 +360,21 @@ def main(chk: Check):
             sc = scale if (scale is None or np.isscalar(scale)) else np.asarray(scale)[pg]
             if not np.array_equal(f(G[pg], Pm[pp], sc), base[np.ix_(pg, pp)], equal_nan=True):
                 bad.append(("perm", pg, pp))
+        # the *data* of a keypoint that is missing in the gt must not matter: vary the surviving
+        # coordinate of every half-NaN gt keypoint (x, NaN) / (NaN, y)
+        if len(prs) and len(gts):
+            half = np.isnan(G).sum(-1) == 1
+            if half.any():
+                G2 = G.copy()
+                G2[half] = np.where(np.isnan(G2[half]), np.nan, G2[half] + 37.5).astype(dtype)
+                moved = f(G2, Pm)
+                rows = half.any(-1) & ok_rows
+                if not np.allclose(moved[rows], base[rows], atol=ttol, equal_nan=True):
+                    chk.fail("OKS changes with the stored coordinate of a keypoint that is missing in the ground truth",
+                             case, observed={"before": base[rows].tolist(), "after": moved[rows].tolist(),
+                                             "half_nan_gt_points": G[half].tolist()},
+                             signatures=[SIG_HALFNAN] if scale is None else [])
+                chk.tag("half_nan_gt_oracle")
         for b in bad:
             chk.fail("OKS contract violated: " + str(b[0]), case, observed=b, signatures=[])
         return not bad
@@ -358,12 +417,12 @@ def main(chk: Check):
             v[...] = before[k]
         return not bad
 
-    n_oks = chk.n(260, 4000)
+    n_oks = (1 if REPLAY.get("oks") else 0) if REPLAY else chk.n(260, 4000)
     lines, metas = [], []
     for it in range(n_oks):
         n_nodes = rng.choice([1, 2, 3, 3, 4, 5, 6, 9])
-        n_gt = rng.choice([0, 1, 1, 2, 2, 3, 4])
-        n_pr = rng.choice([0, 1, 1, 2, 3, 4])
+        n_gt = rng.choice([0, 1, 1, 1, 2, 2, 3, 4])
+        n_pr = rng.choice([0, 1, 1, 1, 2, 3, 4])
         # storage variant: float64 at small coordinates (default), or float32 / float64 poses translated
         # to ordinary image coordinates (1e3..6e4 px) / far from the origin (up to 1e8) - exactly
         u = rng.random()
@@ -397,6 +456,27 @@ def main(chk: Check):
         else:
             sds = [rng.choice([0.025, 0.05, 0.072, 0.107, 0.25]) for _ in range(n_nodes)]
             stddev = np.array(sds, dtype=np.float64)
+        if REPLAY.get("oks"):   # `bin/check C15 --replay <file>`: the recorded compute_oks case only
+            c = REPLAY["oks"]
+            gts = [np.array(g, dtype=np.float64) for g in c["gt"]]
+            prs = [np.array(q, dtype=np.float64) for q in c["pr"]]
+            n_gt, n_pr = len(gts), len(prs)
+            n_nodes = len(c["stddev"]) if isinstance(c["stddev"], list) else (len((gts + prs)[0]) if gts + prs else 1)
+            coco = c["use_cocoeval"]
+            dt = np.float32 if c.get("dtype") == "float32" else np.float64
+            off = tuple(c.get("offset", (0.0, 0.0)))
+            sc = c.get("scale")
+            if sc is None:
+                smode, scale, scales = "none", None, [None] * n_gt
+            elif isinstance(sc, list):
+                smode, scale, scales = "array", np.array(sc, dtype=np.float64), list(sc)
+            else:
+                smode, scale, scales = "scalar", float(sc), [float(sc)] * n_gt
+            if isinstance(c["stddev"], list):
+                sds = list(c["stddev"]); stddev = np.array(sds, dtype=np.float64)
+            else:
+                stddev = float(c["stddev"]); sds = [stddev] * n_nodes
+            tags = ["replay"]
         tags += ["scale:" + smode, "coco" if coco else "paper", f"gt{n_gt}", f"pr{n_pr}"]
         offa = np.array(off)
         garr = [(g + offa).astype(dt) for g in gts]
@@ -431,14 +511,13 @@ def main(chk: Check):
         # call history first (fresh argument objects): compute_oks must not touch its arguments
         if not np.isscalar(stddev) or (scale is not None and not np.isscalar(scale)) or idx % 5 == 0:
             oks_history_oracle(gts, prs, scale, stddev, coco, n_nodes, case)
-        tol = TOL if dt == np.float64 else 1e-6   # float32 inputs: d2 and the bbox area are rounded to float32
+        tol = TOL if dt == np.float64 else 5e-7   # float32 inputs: d2 and the bbox area are rounded to float32 (bound 2.6e-7, observed <= 8e-9)
         r = call(lambda: compute_oks_any(np.array(garr, dtype=dt).reshape(len(garr), n_nodes, 2),
                                          np.array(parr, dtype=dt).reshape(len(parr), n_nodes, 2),
                                          scale=scale, stddev=stddev, use_cocoeval=coco))
         model = parse_oks(out)
-        if state.get("last_direct_raise") and out.split()[0] != "raise":
-            chk.disagree("compute_oks raised IndexError where the as-is model does not", case, "raise", out.split()[0])
-        chk.tag("oks_asis:" + out.split()[0])
+        if state.get("last_direct_raise"):
+            chk.disagree("compute_oks raised IndexError (n_pr != 1) where the model returns the matrix", case, "raise", "ok")
         if r[0] != "ok":
             chk.case(None, tags=tags)
             chk.disagree("compute_oks raised", case, r, "ok")
@@ -463,11 +542,28 @@ def main(chk: Check):
             oks_property_oracle(gts, prs, scale, stddev, coco, n_nodes, case)
         if dt != np.float64 or any(off):
             oks_property_oracle(gts, prs, scale, stddev, coco, n_nodes, case, dtype=dt, offset=off)
+        # the tracker's calling convention: 2-D arguments for a single instance (both, or mixed with 3-D)
+        if (len(garr) == 1 or len(parr) == 1) and r[0] == "ok":
+            G3 = np.array(garr, dtype=dt).reshape(len(garr), n_nodes, 2)
+            P3 = np.array(parr, dtype=dt).reshape(len(parr), n_nodes, 2)
+            kw = dict(scale=scale, stddev=stddev, use_cocoeval=coco)
+            variants = [(G3[0] if len(garr) == 1 else G3, P3[0] if len(parr) == 1 else P3)]
+            if len(garr) == 1 and len(parr) == 1:
+                variants += [(G3[0], P3), (G3, P3[0])]
+            for Gv, Pv in variants:
+                r2 = call(compute_oks_any, Gv, Pv, **kw)
+                chk.tag(f"call_shape:{Gv.ndim}D-{Pv.ndim}D")
+                if r2[0] != "ok" or r2[1].shape != r[1].shape or not np.array_equal(r2[1], r[1], equal_nan=True):
+                    chk.disagree("compute_oks with 2-D (n_nodes, 2) arguments vs the (1, n_nodes, 2) call / model",
+                                 dict(case, call_shape=f"{Gv.ndim}D-{Pv.ndim}D"),
+                                 str(r2[1].tolist() if r2[0] == "ok" else r2)[:300], str(impl)[:300])
+            if idx % 2 == 0:
+                oks_property_oracle(gts, prs, scale, stddev, coco, n_nodes, case, dtype=dt, offset=off, shape2d=True)
     chk.extra["oks_max_abs_diff"] = worst
     chk.extra["oks_max_abs_diff_float32_inputs"] = worst32
 
     # ================================================================== 2. match_instances
-    n_match = chk.n(220, 3000)
+    n_match = (1 if REPLAY.get("match") else 0) if REPLAY else chk.n(220, 3000)
     lines, metas = [], []
     for it in range(n_match):
         n_nodes = rng.choice([2, 3, 3, 4, 5])
@@ -493,6 +589,13 @@ def main(chk: Check):
         thr = rng.choice([0, 0, 0, 0.1, 0.3, 0.5])
         scale = rng.choice([None, None, q16(rng, 1, 400)])
         stddev = rng.choice([0.025, 0.05, 0.107, 0.5])
+        if REPLAY.get("match"):   # the recorded match_instances case only
+            c = REPLAY["match"]
+            gts = [np.array(g, dtype=np.float64) for g in c["gt"]]
+            prs = [np.array(q, dtype=np.float64) for q in c["pr"]]
+            n_gt, n_pr = len(gts), len(prs)
+            n_nodes = len((gts + prs)[0]) if gts + prs else 2
+            scores, thr, scale, stddev = list(c["scores"]), c["threshold"], c["scale"], c["stddev"]
         fg, fp, gi, pi = frames_of(gts, prs, scores, n_nodes)
         # what match_instances sees is Instance.numpy() (sleap_io turns a point whose x is NaN into
         # (NaN, NaN) and keeps (x, NaN)); the model gets exactly those arrays
@@ -516,7 +619,7 @@ def main(chk: Check):
         m_pairs = [(int(pt[1 + 3 * k]), int(pt[2 + 3 * k]), float(unrat(pt[3 + 3 * k]))) for k in range(int(pt[0]))]
         m_fn = [int(x) for x in fpart.split()[1:]]
         r = call(ev.match_instances, fg, fp, stddev=stddev, scale=scale, threshold=thr)
-        tags = [f"gt{len(gts)}", f"pr{len(prs)}", f"thr{thr}", "asis:" + asis]
+        tags = [f"gt{len(gts)}", f"pr{len(prs)}", f"thr{thr}"]
         if r[0] == "ok":
             pairs, fns = r[1]
             gidx = lambda mi: next(i for i, x in enumerate(gi) if x is mi.instance)
@@ -532,15 +635,9 @@ def main(chk: Check):
         chk.case(("match", line) if nontrivial else None,
                  sample={"op": "match_instances", **case, "impl": str(impl)[:300]} if nontrivial and it % 50 == 0 else None,
                  tags=tags + [f"matched{len(m_pairs)}"])
-        frame_results.append((fg, fp, impl))
+        frame_results.append((fg, fp, impl, (stddev, scale, thr)))
         if impl == model:
             pass
-        elif impl[0] == "raise" and asis == "raise" and impl[1] == "ValueError" and "at least one array" in impl[2]:
-            # the as-is model predicts this raise; the property (every frame is matched) fails here
-            chk.tag("asis_raise_reproduced")
-            chk.fail("match_instances raises on a frame with no ground-truth instance and >= 1 prediction",
-                     case, observed=impl, signatures=[SIG_EMPTY_GT])
-            continue
         else:
             chk.disagree("match_instances vs Oks.matchInstances@Rat", case, impl, model)
         # property oracle (independent of the model)
@@ -562,24 +659,43 @@ def main(chk: Check):
             for b in bad:
                 chk.fail("matching contract violated: " + b, case, observed=impl, signatures=[])
         else:
-            sig = [SIG_EMPTY_GT] if (len(gts) == 0 and len(prs) >= 1) else []
+            sig = [SIG_EMPTY_GT] if (len(gts) == 0 and len(prs) >= 1 and impl[1] == "ValueError"
+                                     and "at least one array" in impl[2]) else []
             chk.fail("match_instances raised", case, observed=impl, signatures=sig)
-    # match_frame_pairs = concatenation over frames
-    okf = [(fg, fp, im) for fg, fp, im in frame_results if im[0] == "ok"]
-    for k in range(0, min(len(okf), 60), 3):
-        chunk = okf[k:k + 3]
-        r = call(ev.match_frame_pairs, [(a, b) for a, b, _ in chunk])
-        # default arguments differ from the per-frame calls, so only conservation is compared
-        if r[0] == "ok":
-            tot = sum(len(a.instances) for a, _, _ in chunk)
+    # match_frame_pairs(frame_pairs, stddev, scale, threshold) = concatenation of the per-frame results:
+    # frames are grouped by the (stddev, scale, threshold) they were matched with, so the pass-through
+    # of all three arguments is compared (identity of the instances, OKS values, order)
+    groups = {}
+    for fg, fp, im, params in frame_results:
+        if im[0] == "ok":
+            groups.setdefault(params, []).append((fg, fp, im))
+    for params, members in groups.items():
+        stddev_, scale_, thr_ = params
+        for k in range(0, len(members), 4):
+            chunk = members[k:k + 4]
+            r = call(ev.match_frame_pairs, [(a, b) for a, b, _ in chunk], stddev=stddev_, scale=scale_, threshold=thr_)
             chk.case(None, tags=["frame_pairs"])
-            if len(r[1][0]) + len(r[1][1]) != tot:
-                chk.fail("match_frame_pairs loses ground-truth instances", {"frames": k}, observed=(len(r[1][0]), len(r[1][1]), tot))
-        else:
-            chk.disagree("match_frame_pairs raised", {"frames": k}, r, "ok")
+            if r[0] != "ok":
+                chk.disagree("match_frame_pairs raised", {"params": params}, r, "ok")
+                continue
+            got_p = [(id(a.instance), id(b.instance), float(v)) for a, b, v in r[1][0]]
+            got_f = [id(a.instance) for a in r[1][1]]
+            exp_p, exp_f = [], []
+            for a, b, im in chunk:
+                res = ev.match_instances(a, b, stddev=stddev_, scale=scale_, threshold=thr_)
+                exp_p += [(id(x.instance), id(y.instance), float(v)) for x, y, v in res[0]]
+                exp_f += [id(x.instance) for x in res[1]]
+            if got_p != exp_p or got_f != exp_f:
+                chk.disagree("match_frame_pairs vs concatenated match_instances (stddev/scale/threshold pass-through)",
+                             {"params": params, "n_frames": len(chunk)}, (len(got_p), len(got_f)), (len(exp_p), len(exp_f)))
+                chk.fail("match_frame_pairs does not equal the per-frame matching with the same stddev/scale/threshold",
+                         {"params": params, "frames": [[i_.numpy().tolist() for i_ in a.instances] for a, _, _ in chunk],
+                          "predictions": [[(float(i_.score), i_.numpy().tolist()) for i_ in b.instances] for _, b, _ in chunk]},
+                         observed={"pairs": [v for _, _, v in got_p], "expected": [v for _, _, v in exp_p],
+                                   "n_fn": len(got_f), "expected_n_fn": len(exp_f)})
 
     # ================================================================== 3. tracking/utils
-    n_g = chk.n(150, 2000)
+    n_g = 0 if REPLAY else chk.n(150, 2000)
     lines, metas = [], []
     for it in range(n_g):
         n, m = rng.randrange(0, 6), rng.randrange(0, 6)
@@ -588,11 +704,18 @@ def main(chk: Check):
             C = [[vals[i * m + j] / 8.0 for j in range(m)] for i in range(n)]
         else:
             C = [[rng.randrange(0, 4) / 2.0 for j in range(m)] for i in range(n)]  # ties
-        lines.append(f"greedy {n} {m} " + " ".join(rat(c) for row in C for c in row))
+        if rng.random() < 0.2:
+            # infeasible pairs: `scores_to_cost_matrix` (tracker.py) writes inf for them
+            for i in range(n):
+                for j in range(m):
+                    if rng.random() < 0.25:
+                        C[i][j] = float("inf")
+        BIG = 10 ** 9  # the model orders inf as a cost above every finite one (ties among infs = cost ties)
+        lines.append(f"greedy {n} {m} " + " ".join(rat(BIG if c == float("inf") else c) for row in C for c in row))
         metas.append(("greedy", C, n, m))
     outs = run_driver("C15.lean", lines)
     lsa_lines, lsa_meta = [], []
-    for line, (_, C, n, m), out in zip(lines, metas, outs):
+    for gidx_, (line, (_, C, n, m), out) in enumerate(zip(lines, metas, outs)):
         A = np.array(C, dtype=np.float64).reshape(n, m)
         t = out.split()
         model = [(int(t[1 + 2 * k]), int(t[2 + 2 * k])) for k in range(int(t[0]))]
@@ -604,7 +727,8 @@ def main(chk: Check):
             impl = list(zip([int(x) for x in r[1][0]], [int(x) for x in r[1][1]]))
         else:
             impl = r
-        chk.case(("greedy", line) if n and m else None, tags=["greedy", "greedy_tie" if tie else "greedy_distinct"],
+        chk.case(("greedy", line) if n and m else None,
+                 tags=["greedy", "greedy_tie" if tie else "greedy_distinct"] + (["cost_inf"] if np.isinf(A).any() else []),
                  sample={"op": "greedy_matching", **case, "impl": impl} if it == 3 else None)
         if impl != model:
             if tie and r[0] == "ok":
@@ -627,9 +751,15 @@ def main(chk: Check):
             for b in bad:
                 chk.fail("greedy_matching contract violated: " + b, case, observed=impl)
         # Hungarian: the solver is a parameter of the model; its contract is checked on scipy's output
-        if it < chk.n(80, 600):
+        if gidx_ < chk.n(100, 800):
             rh = call(tu.hungarian_matching, A)
-            if rh[0] == "ok":
+            feasible = n == 0 or m == 0 or min(
+                sum(A[r_, c_] for r_, c_ in zip(rs, cs))
+                for rs in itertools.combinations(range(n), min(n, m))
+                for cs in itertools.permutations(range(m), min(n, m))) < float("inf")
+            if rh[0] == "raise" and not feasible and rh[1] == "ValueError" and "infeasible" in rh[2]:
+                chk.tag("hungarian_infeasible")   # scipy's documented behaviour; no assignment exists
+            elif rh[0] == "ok":
                 hp = list(zip([int(x) for x in rh[1][0]], [int(x) for x in rh[1][1]]))
                 lsa_lines.append(f"lsa {n} {m} " + lst(hp, lambda e: f"{e[0]} {e[1]}"))
                 lsa_meta.append((C, n, m, hp, A))
@@ -651,7 +781,7 @@ def main(chk: Check):
 
     # IoU / cosine / euclid
     lines, metas = [], []
-    for it in range(chk.n(150, 2000)):
+    for it in range(0 if REPLAY else chk.n(150, 2000)):
         def box():
             x0, y0 = rng.randrange(0, 80) / 4.0, rng.randrange(0, 80) / 4.0
             w, h = rng.choice([0, 0.25, 1, 3, 7.5, 20]), rng.choice([0, 0.25, 1, 3, 7.5, 20])
@@ -719,6 +849,8 @@ if __name__ == "__main__":
             "exp enters as a parameter with the Transc laws (realTransc shows they are satisfiable); Float.exp ~ np.exp",
             "scipy.optimize.linear_sum_assignment is a parameter (LsaSpec); its output is checked against the spec each run",
             "sleap_io LabeledFrame/Instance.numpy() hand the stored points to match_instances unchanged",
+            "the matching correspondence runs the model on the OKS matrix the real compute_oks returns for the frame "
+            "(a compute_oks defect is the business of part 1, the matching part would not see it)",
         ],
         rule="seeded generator: 0-4 gt x 0-5 predictions x 1-9 nodes on the k/16 lattice, stored as float64 or float32, at the "
              "origin or translated by a large common offset (1e3..6.5e4 px float32, up to 1e8 float64); call histories that "
@@ -729,7 +861,12 @@ if __name__ == "__main__":
         assumptions=[
             "prediction frames contain only PredictedInstance objects (a user Instance in the prediction frame shifts the "
             "score index in match_instances; outside the property's quantifier)",
-            "2-D points; finite coordinates; stddev > 0; scale >= 0",
+            "2-D points; finite coordinates; stddev > 0; scale >= 0 (at stddev = 0 or scale + eps = 0 the code computes 0/0 = NaN "
+            "where the field model has x/0 = 0; the theorems carry the positivity hypotheses)",
+            "a ground-truth instance without any visible keypoint has OKS NaN (0/0) against every prediction: outside the [0,1] "
+            "clause by hypothesis (`oks_none_iff`), such rows are never matched (`match_nan_row_is_false_negative`)",
+            "len(stddev) = n_nodes and equal node counts of gt and predictions (the code raises in reshape, the model zips)",
+            "detection scores are finite numbers (NaN scores are not generated)",
         ],
     )
-    run_check(chk, main)
+    run_check(chk, main, replay)
